@@ -709,6 +709,8 @@ func checkC16(p *core.Program, r *core.Report) {
 		}
 		if txtArg == nil {
 			r.Fail(R1, key, p.Pos(annCall.Pos()), "no []string argument of the provider's Announce call")
+		} else if mod := listElementStore(scannedFns(scanned)); mod != nil {
+			r.Fail(R1, key, p.Pos(mod.Pos()), "an item of the TXT list is overwritten after the list was built (e.g. every key=value item is cut to a byte bound): what is announced for a long identifier, SKI or category list is not the configured value - and no longer what the QR text says")
 		} else if why := builtList(p, txtArg, 0); why != "" {
 			r.Fail(R1, key, p.Pos(annCall.Pos()), "the TXT list passes through "+why+" before it is announced: items are removed depending on their text (e.g. every item ending in '='), so a value that happens to match - a base64 serial, a model cut at '=' - is not announced although it is configured")
 		} else {
@@ -786,9 +788,12 @@ func checkC16(p *core.Program, r *core.Report) {
 			c, ok := in.(*ssa.Call)
 			return ok && c.Call.StaticCallee() == ann
 		}
+		// the re-announce may sit in a helper that always performs it (unless the service is not announced)
+		mustAnn := core.NewMust(p, 2, callsAnn)
+		mustAnn.Removed = notAnnounced
 		if st == nil {
 			r.Fail(R5, "SetAutoAccept stores the flag", p.Pos(saa.Pos()), "the flag is not stored")
-		} else if bad := core.PathSearch(saa, st, core.IsReturn, callsAnn, notAnnounced); bad != nil {
+		} else if bad := core.PathSearch(saa, st, core.IsReturn, mustAnn.Instr, notAnnounced); bad != nil {
 			r.Fail(R5, "SetAutoAccept re-announces", p.Pos(bad.Pos()), "after storing a new auto-accept value an announced service is not re-announced on every path")
 		} else {
 			r.OK(R5, "SetAutoAccept re-announces", p.Pos(st.Pos()), "store, then announce unless not announced")
@@ -1544,6 +1549,8 @@ func builtListV(p *core.Program, v ssa.Value, depth int, seen map[ssa.Value]bool
 	switch x := v.(type) {
 	case *ssa.Const:
 		return ""
+	case *ssa.MakeSlice:
+		return ""
 	case *ssa.Slice:
 		if _, ok := x.X.(*ssa.Alloc); ok {
 			return ""
@@ -1585,4 +1592,40 @@ func builtListV(p *core.Program, v ssa.Value, depth int, seen map[ssa.Value]bool
 		}
 	}
 	return "an unrecognised construction"
+}
+
+func scannedFns(m map[*ssa.Function]bool) []*ssa.Function {
+	var out []*ssa.Function
+	for f := range m {
+		out = append(out, f)
+	}
+	sort.Slice(out, func(i, j int) bool { return out[i].String() < out[j].String() })
+	return out
+}
+
+// listElementStore: a store into an element of a []string slice value (l[i] = x) in one of fns - the elements
+// of a slice literal are stored through its backing array, not through the slice.
+func listElementStore(fns []*ssa.Function) ssa.Instruction {
+	var found ssa.Instruction
+	for _, fn := range fns {
+		core.EachInstr(fn, func(in ssa.Instruction) {
+			st, ok := in.(*ssa.Store)
+			if !ok || found != nil {
+				return
+			}
+			ia, ok := st.Addr.(*ssa.IndexAddr)
+			if !ok {
+				return
+			}
+			sl, ok := ia.X.Type().Underlying().(*types.Slice)
+			if !ok {
+				return
+			}
+			if b, ok := sl.Elem().Underlying().(*types.Basic); ok && b.Info()&types.IsString != 0 {
+				// the one-element varargs slice of an append is an array store, never a slice store
+				found = in
+			}
+		})
+	}
+	return found
 }
